@@ -332,13 +332,19 @@ func (update *Update) Prepend(eventlist *EventList) error {
 	if count == 0 {
 		return nil
 	}
+	if len(update.Events) == 0 {
+		return errors.New("update contains no events")
+	}
+	if update.SignedAccumulator == nil || update.SignedAccumulator.Accumulator == nil {
+		return errors.New("accumulator of update has not been verified")
+	}
 	ours := update.Events[0].Index
 	last := eventlist.Events[count-1].Index
 	if last < ours-1 {
 		return errors.New("missing events")
 	}
-	min := int(1 + last - ours)
-	if min > len(update.Events) {
+	min := 1 + last - ours
+	if min > uint64(len(update.Events)) {
 		return errors.New("events too new")
 	}
 
@@ -346,7 +352,11 @@ func (update *Update) Prepend(eventlist *EventList) error {
 		SignedAccumulator: update.SignedAccumulator,
 		Events:            update.Events[min:],
 	}
-	n.product = n.Product(n.Events[0].Index)
+	if len(n.Events) > 0 {
+		n.product = n.Product(n.Events[0].Index)
+	} else {
+		n.product = big.NewInt(1)
+	}
 	n.Events = append(eventlist.Events, n.Events...)
 	if eventlist.product != nil {
 		n.product.Mul(n.product, eventlist.product)
